@@ -79,6 +79,12 @@ PROPS = {
         "shards": {"quick": 12, "thorough": 16}, "timeout": {"quick": 600, "thorough": 12000},
         "floors": {"quick": {"sessions_driven": 800, "p4_updates_validated": 8000, "generator_runs": 5}, "thorough": {"sessions_driven": 40000, "generator_runs": 50}},
     },
+    "C04": {
+        "test": "TestVerif_C04", "level": "exploration",
+        "rule": "random histories over 2-6 sessions and 1-2 associations on the real agent + harness P4Runtime server: sessions share (or not) 3 gNB addresses and 3 application filters; agent configurations drawn over slice 0-15, default TC 0-3 and QFI->TC maps (new configuration every 40 histories); establishment (fixed/CHOOSE/allocated identifiers, 1-2 PDR pairs, 0-2 QERs, forward/buffer/drop), Update FAR (tunnel change, fwd<->buffer<->drop), Update QER (gates), deletion, release, rejected-for-addressing requests; after every accepted request the seven tables and the configured meter cells are compared with the reference image (ids resolved through the written tables); crash points (killed after response i / at the j-th Write) with a new incarnation against the same switch; distinct = <normalised model image, entries, applications, tunnel peers> + crash points",
+        "shards": {"quick": 12, "thorough": 16}, "timeout": {"quick": 700, "thorough": 14000},
+        "floors": {"quick": {"table_images_compared": 1200, "crash_points": 15}, "thorough": {"table_images_compared": 50000, "crash_points": 800}},
+    },
     "C10": {
         "test": "TestVerif_C10", "level": "exploration",
         "rule": "scenario = {0..n associations (some >100)} x {0-3 sessions} x trigger per association {release, silence->read timeout(+heartbeat failure), unanswered heartbeats, live} x requests in flight x datapath reply delay x PFCPIface.Stop() at a drawn offset (+-3.5 ms around the coinciding triggers), fresh agent per scenario, plus a 'refresh' family (association ends without Stop, same address:port associates afresh, bystander association checked); distinct = distinct interleaving signatures (datapath, heartbeat on/off, delay, stop offset in ms, multiset of per-association <trigger, order relative to Stop, release answered?, sessions>)",
